@@ -311,7 +311,14 @@ def run(ck):
     if binp:
         rc, out, err = vlib.sh2([binp, "-seed", str(ck.seed)] + args, timeout=3000)
         if rc != 0:
-            ck.broken.append({"what": "harness run failed", "detail": err[-1500:]})
+            m = re.search(r"^(fatal error: .*|panic: .*)$", err, re.M)
+            if m:
+                # the code under test brought the process down: an observation
+                ck.violation("impl:crash:" + m.group(1)[:60],
+                             "the workload crashed the process: " + m.group(1),
+                             {"stderr_head": err[:3000], "args": args})
+            else:
+                ck.broken.append({"what": "harness run failed", "detail": err[-1500:]})
         runs += [json.loads(l) for l in out.splitlines() if l.startswith("{")]
     # the same workloads under the race detector
     race = ck.build_harness("c06", race=True)
